@@ -27,7 +27,7 @@ def coq_call_M(toks):
     ctor = toks[p]; p += 1
     es = toks[p:p + R]; p += R
     ss = []
-    if lay == 2:
+    if lay == 2 or ctor == 4:
         ss = toks[p:p + R]; p += R
     dpv = 0
     if ctor == 2:
